@@ -541,14 +541,14 @@ def w4a : Expr := .name "p1".toList (some "os.path".toList)
 def w4b : Expr := .name "p2".toList (some "os.path".toList)
 
 /-- refurb 2.0.0 (`cmpName = false`): flagged although the names differ; with the name comparison: not flagged -/
-theorem w1_flagged_but_different : isEquiv ⟨false⟩ w1a w1b = true ∧ isEquiv ⟨true⟩ w1a w1b = false ∧ ¬ synEq w1a w1b := by decide
+theorem w1_flagged_but_different (x : Bool) : isEquiv ⟨false, x⟩ w1a w1b = true ∧ isEquiv ⟨true, x⟩ w1a w1b = false ∧ ¬ synEq w1a w1b := by cases x <;> decide
 /-- in either configuration: not flagged although identical -/
 theorem w2_same_but_not_flagged : isEquiv cf w2a w2b = false ∧ synEq w2a w2b := by
-  obtain ⟨b⟩ := cf; cases b <;> decide
+  obtain ⟨b, x⟩ := cf; cases b <;> cases x <;> decide
 /-- in either configuration: flagged although the literals differ -/
 theorem w3_flagged_but_different : isEquiv cf w3a w3b = true ∧ ¬ synEq w3a w3b := by
-  obtain ⟨b⟩ := cf; cases b <;> decide
-theorem w4_alias_flagged : isEquiv ⟨false⟩ w4a w4b = true ∧ isEquiv ⟨true⟩ w4a w4b = false ∧ ¬ synEq w4a w4b := by decide
+  obtain ⟨b, x⟩ := cf; cases b <;> cases x <;> decide
+theorem w4_alias_flagged (x : Bool) : isEquiv ⟨false, x⟩ w4a w4b = true ∧ isEquiv ⟨true, x⟩ w4a w4b = false ∧ ¬ synEq w4a w4b := by cases x <;> decide
 
 /-- the full statement fails — whether or not the relation also compares names — in both directions -/
 theorem full_refuted (cf : Cfg) : ¬ Full cf := fun h =>
@@ -871,7 +871,7 @@ theorem right_in_context (C : List Frame) {x y : Expr} (h : isEquiv cf x y = tru
     isEquiv cf (fill C x) (fill C y) = true ↔ synEq (fill C x) (fill C y) := by
   rw [ctx_congr, ctx_synEq]; exact h
 
-/-! ## 7. `get_common_expr_positions` (FURB108 / FURB124) -/
+/-! ## 7. `get_common_expr_positions` (FURB108 / FURB124), in both shapes (`Cfg.crossOnly`) -/
 
 theorem findFrom_some {a : Expr} : ∀ {l : List Expr} {j₀ j : Nat}, findFrom cf a l j₀ = some j →
     j₀ ≤ j ∧ ∃ b, l[j - j₀]? = some b ∧ isEquiv cf a b = true
@@ -936,13 +936,100 @@ theorem commonFrom_none_iff : ∀ {l : List Expr} {i₀ : Nat}, commonFrom cf l 
         rw [commonFrom_none_iff]
         exact ⟨fun h => ⟨findFrom_none hn, h⟩, fun h => h.2⟩
 
+/-- the cross search (`product(first half, second half)`): a reported pair takes one operand from each half, in the
+    reported positions, and the two are equivalent -/
+theorem crossFrom_some : ∀ {l r : List Expr} {i₀ h i j : Nat}, crossFrom cf l r i₀ h = some (i, j) →
+    i₀ ≤ i ∧ h ≤ j ∧ ∃ a b, l[i - i₀]? = some a ∧ r[j - h]? = some b ∧ isEquiv cf a b = true
+  | [], _, _, _, _, _, hq => by simp [crossFrom] at hq
+  | a :: t, r, i₀, h, i, j, hq => by
+      simp only [crossFrom] at hq
+      split at hq
+      · next j' hj =>
+        cases hq
+        obtain ⟨h1, b, h2, h3⟩ := findFrom_some hj
+        exact ⟨Nat.le_refl _, h1, a, b, by simp, h2, h3⟩
+      · obtain ⟨h1, h2, x, y, hx, hy, hxy⟩ := crossFrom_some hq
+        refine ⟨by omega, h2, x, y, ?_, hy, hxy⟩
+        have : i - i₀ = (i - (i₀ + 1)) + 1 := by omega
+        rw [this]; simpa using hx
+
+theorem crossFrom_none_iff : ∀ {l r : List Expr} {i₀ h : Nat}, crossFrom cf l r i₀ h = none ↔
+    ∀ a ∈ l, ∀ b ∈ r, isEquiv cf a b = false
+  | [], _, _, _ => by simp [crossFrom]
+  | a :: t, r, i₀, h => by
+      simp only [crossFrom, List.mem_cons, forall_eq_or_imp]
+      split
+      · next j hj =>
+        obtain ⟨_, b, h2, h3⟩ := findFrom_some hj
+        simp only [reduceCtorEq, false_iff, not_and]
+        intro hall
+        have := hall b (List.mem_of_getElem? h2)
+        rw [h3] at this; cases this
+      · next hn =>
+        rw [crossFrom_none_iff]
+        exact ⟨fun hq => ⟨findFrom_none hn, hq⟩, fun hq => hq.2⟩
+
+/-- in either shape of the search: a reported pair of positions is a pair of equivalent operands, in order -/
 theorem commonPositions_sound {l : List Expr} {i j : Nat} (h : commonPositions cf l = some (i, j)) :
     i < j ∧ ∃ a b, l[i]? = some a ∧ l[j]? = some b ∧ isEquiv cf a b = true := by
-  obtain ⟨_, h2, a, b, ha, hb, hab⟩ := commonFrom_some h
-  exact ⟨h2, a, b, by simpa using ha, by simpa using hb, hab⟩
+  unfold commonPositions at h
+  split at h
+  · obtain ⟨_, h2, a, b, ha, hb, hab⟩ := crossFrom_some h
+    simp only [Nat.sub_zero, List.getElem?_take, List.getElem?_drop] at ha hb
+    split at ha
+    · next hi =>
+      refine ⟨by omega, a, b, ha, ?_, hab⟩
+      rw [← hb]; congr 1; omega
+    · cases ha
+  · obtain ⟨_, h2, a, b, ha, hb, hab⟩ := commonFrom_some h
+    exact ⟨h2, a, b, by simpa using ha, by simpa using hb, hab⟩
 
-theorem commonPositions_none_iff {l : List Expr} :
-    commonPositions cf l = none ↔ l.Pairwise (fun a b => isEquiv cf a b = false) := commonFrom_none_iff
+/-- after the change: the reported operands come from DIFFERENT comparisons — `i` lies in the first half and `j`
+    in the second -/
+theorem commonPositions_cross {l : List Expr} {i j : Nat} (hc : cf.crossOnly = true)
+    (h : commonPositions cf l = some (i, j)) :
+    i < l.length / 2 ∧ l.length / 2 ≤ j ∧ ∃ a b, l[i]? = some a ∧ l[j]? = some b ∧ isEquiv cf a b = true := by
+  simp only [commonPositions, hc, if_true, commonCross] at h
+  obtain ⟨_, h2, a, b, ha, hb, hab⟩ := crossFrom_some h
+  simp only [Nat.sub_zero, List.getElem?_take, List.getElem?_drop] at ha hb
+  split at ha
+  · next hi =>
+    refine ⟨hi, h2, a, b, ha, ?_, hab⟩
+    rw [← hb]; congr 1; omega
+  · cases ha
+
+/-- two operands of the same comparison are never reported as the common expression (`q == q or p == r`) -/
+theorem same_side_never_reported {l : List Expr} {i j : Nat} (hc : cf.crossOnly = true)
+    (h : commonPositions cf l = some (i, j)) :
+    ¬ (i < l.length / 2 ∧ j < l.length / 2) ∧ ¬ (l.length / 2 ≤ i ∧ l.length / 2 ≤ j) := by
+  obtain ⟨h1, h2, _⟩ := commonPositions_cross hc h
+  omega
+
+/-- after the change: nothing is reported exactly when no operand of the first comparison is equivalent to one of the second -/
+theorem commonPositions_none_iff_cross {l : List Expr} (hc : cf.crossOnly = true) :
+    commonPositions cf l = none ↔
+      ∀ a ∈ l.take (l.length / 2), ∀ b ∈ l.drop (l.length / 2), isEquiv cf a b = false := by
+  simp only [commonPositions, hc, if_true, commonCross]; exact crossFrom_none_iff
+
+/-- before the change: nothing is reported exactly when no two of the operands are equivalent -/
+theorem commonPositions_none_iff_all {l : List Expr} (hc : cf.crossOnly = false) :
+    commonPositions cf l = none ↔ l.Pairwise (fun a b => isEquiv cf a b = false) := by
+  simp only [commonPositions, hc, commonAll]; exact commonFrom_none_iff
+
+/-- the FURB108/FURB124 shape: `q == q or p == r` with `q` different from `p` and `r` has no common expression … -/
+theorem repeated_operand_not_common {q p r : Expr} (hc : cf.crossOnly = true)
+    (h₁ : isEquiv cf q p = false) (h₂ : isEquiv cf q r = false) : commonPositions cf [q, q, p, r] = none := by
+  rw [commonPositions_none_iff_cross hc]; simp [h₁, h₂]
+
+/-- … while `p == p or p == r` has one (positions 0 and 2) -/
+theorem shared_operand_common {p r : Expr} (hc : cf.crossOnly = true) :
+    commonPositions cf [p, p, p, r] = some (0, 2) := by
+  simp [commonPositions, hc, commonCross, crossFrom, findFrom, isEquiv_refl]
+
+/-- for the search as extracted from /repo on this run -/
+theorem repo_commonPositions_sound {l : List Expr} {i j : Nat} (h : commonPositions Generated.equivCfg l = some (i, j)) :
+    i < j ∧ ∃ a b, l[i]? = some a ∧ l[j]? = some b ∧ isEquiv Generated.equivCfg a b = true :=
+  commonPositions_sound h
 
 /-! ## 8. The hypotheses are satisfiable (non-vacuity) -/
 
@@ -973,10 +1060,12 @@ def exC : Expr :=
 
 example : Resolved w0 exA ∧ Resolved w0 exB ∧ Resolved w0 exC := by
   simp [exA, exB, exC, Resolved, ResolvedArgs, ResolvedO, w0, litRepr]; decide
-example : exA ≠ exB ∧ isEquiv ⟨false⟩ exA exB = true ∧ isEquiv ⟨true⟩ exA exB = true ∧ synEq exA exB := by decide
-example : isEquiv ⟨false⟩ exB exC = false ∧ isEquiv ⟨true⟩ exB exC = false ∧ ¬ synEq exB exC := by decide
-example : commonPositions ⟨false⟩ [exC, exA, exC, exB] = some (0, 2) := by decide
-example : commonPositions ⟨false⟩ [exC, exA, .lit .int ['1'], exB] = some (1, 3) := by decide
+example : exA ≠ exB ∧ isEquiv ⟨false, true⟩ exA exB = true ∧ isEquiv ⟨true, true⟩ exA exB = true ∧ synEq exA exB := by decide
+example : isEquiv ⟨false, true⟩ exB exC = false ∧ isEquiv ⟨true, true⟩ exB exC = false ∧ ¬ synEq exB exC := by decide
+example : commonPositions ⟨false, false⟩ [exC, exA, exC, exB] = some (0, 2) ∧ commonPositions ⟨false, true⟩ [exC, exA, exC, exB] = some (0, 2) := by decide
+example : commonPositions ⟨false, true⟩ [exC, exA, .lit .int ['1'], exB] = some (1, 3) := by decide
+/-- `q == q or p == r`: reported by the old search (0, 1), not by the new one -/
+example : commonPositions ⟨true, false⟩ [exC, exC, exA, .lit .int ['1']] = some (0, 1) ∧ commonPositions ⟨true, true⟩ [exC, exC, exA, .lit .int ['1']] = none := by decide
 /-- the lambda of witness 2 on ONE line is inside the guard (and recognised) -/
 example : Resolved { w0 with sc := fun _ => "LambdaExpr:1(Block:1(ReturnStmt:1(IntExpr(1))))".toList } w2a := by
   simp [w2a, Resolved]
